@@ -17,8 +17,10 @@ import (
 	"errors"
 	"fmt"
 	"io"
+	"runtime"
 	"sort"
 	"sync"
+	"sync/atomic"
 	"testing"
 	"time"
 
@@ -901,11 +903,21 @@ func runCase(c *Case) (*observation, error) {
 			w.barriers[rid] = b
 		}
 		w.mu.Unlock()
+		// The goroutines leave a spinning start line together, so that they enter Attest
+		// within nanoseconds of each other on different CPUs (real parallelism for the
+		// first steps of Attest; the rendezvous in the data double covers the rest).
 		var wg sync.WaitGroup
+		var ready atomic.Int32
 		for j := range op.Runs {
 			wg.Add(1)
 			go func(j int) {
 				defer wg.Done()
+				ready.Add(1)
+				for spins := 0; ready.Load() < int32(len(op.Runs)) && spins < 2000000; spins++ {
+					if spins%1000 == 999 {
+						runtime.Gosched()
+					}
+				}
 				call(j)
 			}(j)
 		}
@@ -1261,6 +1273,56 @@ func providerName(c *Case) string {
 		return "direct"
 	}
 	return c.Provider
+}
+
+// genBurstCase: the same duty delivered k times at once, as the first Attest calls of a
+// fresh epoch, for many consecutive fresh epochs (a reorg or a head event arriving
+// together with the timer can start the attestation round of a slot twice at once).
+func genBurstCase(t *rapid.T) Case {
+	g := &genState{
+		spe:      rapid.SampledFrom([]uint64{2, 3, 8, 32}).Draw(t, "spe"),
+		pool:     rapid.IntRange(8, 40).Draw(t, "pool"),
+		nodesN:   1,
+		provider: "direct",
+	}
+	c := Case{SlotsPerEpoch: g.spe, Provider: "direct", NodesN: 1, Pool: g.pool}
+	epoch := rapid.SampledFrom([]uint64{0, 1, 2, 50}).Draw(t, "startEpoch")
+	k := rapid.IntRange(2, 8).Draw(t, "k")
+	n := rapid.IntRange(20, 60).Draw(t, "epochs")
+	for i := 0; i < n; i++ {
+		r := g.genDuty(t, epoch+uint64(i))
+		// a long validator list keeps the first call busy marking while the others arrive
+		for len(r.Vals) < 6 {
+			v := uint64(rapid.IntRange(0, g.pool-1).Draw(t, "burstV"))
+			dup := false
+			for _, x := range r.Vals {
+				dup = dup || x.V == v
+			}
+			if !dup {
+				r.Vals = append(r.Vals, DVal{V: v, C: 0, Pos: uint64(len(r.Vals))})
+			}
+		}
+		r.Origin = "new"
+		r.Nodes = []NodeData{{Slot: r.Slot, SourceEpoch: (epoch + uint64(i)) - min64(epoch+uint64(i), 1), TargetEpoch: epoch + uint64(i), Seed: uint64(i)}}
+		op := Op{Runs: []Run{r}}
+		for j := 1; j < k; j++ {
+			cp := cloneDuty(r)
+			cp.Origin = "copy"
+			cp.Nodes = r.Nodes
+			op.Runs = append(op.Runs, cp)
+		}
+		c.Ops = append(c.Ops, op)
+	}
+	c.LogLevel = rapid.SampledFrom([]string{"", "", "", "trace"}).Draw(t, "logLevel")
+	return c
+}
+
+// TestFreshEpochBurst: simultaneous first deliveries in fresh epochs.
+func TestFreshEpochBurst(t *testing.T) {
+	rapid.Check(t, func(t *rapid.T) {
+		c := genBurstCase(t)
+		check(t, &c)
+	})
 }
 
 func TestHistoryDirect(t *testing.T) {
